@@ -1798,6 +1798,10 @@ pub fn c12(c: &Collector, g: &mut Guard) {
             vec![Op::Rm(vec![25], true)],
             vec![Op::Sm(vec![3], true), Op::Draw("wide".into()), Op::Cup(Some(2), Some(100))],
             vec![Op::Resize(None, Some(132)), Op::Draw("r".into())],
+            // already 132 wide WITH a region and origin mode: DECCOLM keeps the width, so home is the
+            // top margin, not row 0
+            vec![Op::Resize(Some(4), Some(132)), Op::SetMargins(Some(2), Some(3)), Op::Sm(vec![6], true), Op::Draw("m".into())],
+            vec![Op::Sm(vec![3], true), Op::SetMargins(Some(2), Some(3)), Op::Sm(vec![6], true), Op::Cup(Some(2), Some(50))],
         ] {
             let mut s = b.screen.clone();
             let mut ok = true;
@@ -2830,6 +2834,36 @@ pub fn c20(c: &Collector, g: &mut Guard) {
         // G0 / G1 hold what was designated: DECSC / DECRC / RIS inside the history are judged too
         &|op| matches!(op, Op::Draw(_) | Op::SaveCursor | Op::RestoreCursor | Op::Reset),
     );
+    // (2b) UTF-8 mode ignores shifts and designators from EVERY charset state, not just the default
+    // one (where an executed SI or `ESC ) 0` would change nothing)
+    let mut ub = Vec::new();
+    for script in [
+        vec![Op::ShiftOut],
+        vec![Op::DefineCharset("U".into(), ")".into()), Op::ShiftOut],
+        vec![Op::DefineCharset("0".into(), "(".into())],
+        vec![Op::DefineCharset("V".into(), "(".into()), Op::DefineCharset("B".into(), ")".into()), Op::ShiftOut, Op::ShiftIn],
+    ] {
+        if let Ok(s) = build(4, 2, &script) {
+            ub.push(Base { columns: 4, lines: 2, script, screen: s });
+        }
+    }
+    sweep(
+        c,
+        &ub,
+        |_| {
+            let mut v = Vec::new();
+            for s in ["\x0fq", "\x0eq", "\x0e\x0fq", "\x1b(Bq", "\x1b)Bq", "\x1b(0q", "\x1b)0q", "\x1b(Uq\x0e\x0f\u{e9}", "\x1b)Vq", "\x1b[\x0fHq", "\x1b]2;t\x0f\x07q"] {
+                v.push(Op::Feed(vec![s.to_string()], true));
+                v.push(Op::FeedBytes(vec![s.as_bytes().to_vec()], true));
+                v.push(Op::Feed(vec![s.to_string()], false));
+            }
+            v
+        },
+        |c, t, local| {
+            local.count("utf8_from_shifted_states");
+            refine_all(c, "C20", "E4.parser.shifted", t, local);
+        },
+    );
     // the same histories through one parser in 8-bit mode (a parser-side memo of designators)
     crate::props::parser_words(
         c,
@@ -2846,6 +2880,7 @@ pub fn c20(c: &Collector, g: &mut Guard) {
     g.need(c, "visible_translations");
     g.need(c, "parser_path_transitions");
     g.need(c, "parser_designated");
+    g.need(c, "utf8_from_shifted_states");
     g.need(c, "parser_words");
 }
 
